@@ -231,7 +231,7 @@ var tickChoices = []time.Duration{
 // tick is enabled (quiescent system).
 func (s *Sim) Step() (progress bool) {
 	synctest.Wait()
-	s.stepTime = append(s.stepTime, s.now())
+	s.noteTime()
 	for _, h := range s.stepHooks {
 		h()
 		if s.failed() {
@@ -372,7 +372,6 @@ func (s *Sim) Drain(maxVirtual time.Duration, done func() bool) bool {
 		}
 		s.step++
 		s.logf("tick(drain) 100ms")
-		s.stepTime = append(s.stepTime, s.now())
 		time.Sleep(100 * time.Millisecond)
 	}
 	return false
@@ -417,4 +416,22 @@ func (s *Sim) drawWeights() {
 	}
 	s.weights[akTick] = []int{1, 1, 2, 5}[s.ch.choose(4)]
 	s.weights[akFault] = []int{1, 1, 2, 4}[s.ch.choose(4)]
+}
+
+// timeAt returns the virtual time at which action number step completed.
+func (s *Sim) timeAt(step int) time.Duration {
+	if step < 0 {
+		return 0
+	}
+	if step >= len(s.stepTime) {
+		return s.now()
+	}
+	return s.stepTime[step]
+}
+
+func (s *Sim) noteTime() {
+	now := s.now()
+	for len(s.stepTime) <= s.step {
+		s.stepTime = append(s.stepTime, now)
+	}
 }
